@@ -10,6 +10,9 @@ class RuntimeErr(Exception):
     pass
 
 
+WILDCARDS = set(map(ord, "*?[\\"))
+
+
 class FileRec:
     """symbolic file record"""
     INT_ATTRS = ["size", "blocks", "nlink", "ino", "uid", "gid", "projid", "atime", "ctime", "mtime",
@@ -126,6 +129,9 @@ class Machine:
                     t = b_and(t, truth(last))
                 return ("bool", t)
             if h == "or":
+                if len(x) == 3 and isinstance(x[1], list) and x[1] and x[1][0] == Sym("xattr-ref-string") and isinstance(x[2], Str) and not x[2].items:
+                    v = self.eval(x[1], env, g, held)
+                    return ("xattr-or-empty", v[1])
                 none_yet = True
                 t = False
                 for e in x[1:]:
@@ -200,7 +206,7 @@ class Machine:
     def as_text(self, v, g, what):
         if isinstance(v, tuple) and v[0] == "str":
             return v[1]
-        if isinstance(v, tuple) and v[0] == "attr":
+        if isinstance(v, tuple) and v[0] in ("attr", "strftime", "derived", "xattr-or-empty"):
             return [v]
         self.fail(g, "%s: not a string: %r" % (what, v))
         return []
@@ -271,19 +277,30 @@ class Machine:
         if name in ("streq?", "fnmatch?", "streq-ci?", "fnmatch-ci?"):
             pat, s = args
             key = ("str", tuple(pat[1])) if pat[0] == "str" else pat
+            # contract: string equality coincides with fnmatch on patterns without the characters * ? [ \
+            if name.startswith("streq") and pat[0] == "str" and not any(c in WILDCARDS for c in pat[1]):
+                name = name.replace("streq", "fnmatch")
             return ("bool", f.pred(name, repr(key), repr(s)))
         if name == "member":
-            return ("bool", f.pred("member", repr(args[0]), repr(args[1])))
+            a0 = ("str", tuple(args[0][1])) if args[0][0] == "str" else args[0]
+            return ("bool", f.pred("member", repr(a0), repr(args[1])))
         if name == "lov-pools" and not args:
             return ("attr", "lov-pools")
         if name == "xattr?":
-            return ("bool", f.pred("xattr?", repr(args[0])))
+            a0 = ("str", tuple(args[0][1])) if args[0][0] == "str" else args[0]
+            return ("bool", f.pred("xattr?", repr(a0)))
         if name == "xattr-match?":
-            return ("bool", f.pred("xattr-match?", repr(args[0]), repr(args[1])))
+            a0 = ("str", tuple(args[0][1])) if args[0][0] == "str" else args[0]
+            a1 = ("str", tuple(args[1][1])) if args[1][0] == "str" else args[1]
+            return ("bool", f.pred("xattr-value-matches", repr(a0), repr(a1)))
         if name == "xattr-ref-string":
-            return ("attr", "xattr:" + repr(args[0]))
+            return ("xattr-ref", ("str", tuple(args[0][1])) if args[0][0] == "str" else args[0])
         if name == "equal?":
-            return ("bool", f.pred("equal?", repr(args[0]), repr(args[1])))
+            a, b = args
+            if a[0] == "xattr-ref" and b[0] == "str" and not any(c in WILDCARDS for c in b[1]):
+                # contract: a literal value without * ? [ \ matches exactly itself
+                return ("bool", f.pred("xattr-value-matches", repr(a[1]), repr(("str", tuple(b[1])))))
+            return ("bool", f.pred("equal?", repr(a), repr(b)))
         if name == "print-relative-path" and not args:
             self.emit(g, "direct", ("stdout",), [("attr", "relative-path")], extra=10, held=held)
             return ("bool", True)
@@ -327,10 +344,19 @@ class Machine:
             return ("str", out)
         if name == "format":
             return self.format(args, g)
-        if name in ("strftime",):
-            return ("attr", "strftime:" + repr(args[0]) + ":" + repr(args[1]))
+        if name == "strftime":
+            fmt, t = args
+            if fmt[0] == "str" and len(fmt[1]) == 2 and fmt[1][0] == 37 and t[0] == "localtime":
+                for a in ("atime", "ctime", "mtime"):
+                    if t[1][0] == "int" and t[1][1].eq(f.ints[a]):
+                        return ("strftime", fmt[1][1], a)
+            return ("attr", "strftime:" + repr(fmt) + ":" + repr(t))
         if name == "localtime":
-            return ("attr", "localtime:" + repr(args[0]))
+            return ("localtime", args[0])
+        if name == "type->char" and args and args[0] == ("attr", "type"):
+            return ("derived", "Type")
+        if name == "dirname" and args and args[0] == ("attr", "relative-path"):
+            return ("derived", "Parents")
         if name in ("type->char", "dirname"):
             return ("attr", name + ":" + repr(args[0]))
         if name == "lipe-scan":
